@@ -209,15 +209,16 @@ def _in_abs_band(fargs, s, band=1e-10):
 
 
 def _trikernel(C):
-    """triangle_Bfield's `ind > 1e-12` switch between the two edge-integral formulas: same branch at X and s*X"""
+    """the real triangle kernel at X and s*X: (a) every branch decision it takes (by source site and outcome) and (b) the `ind > 1e-12`
+    switch between the two edge-integral formulas (a lazy np.where, observed through a spy) are the same at both scales"""
     from magpylib._src.fields import field_BH_triangle as T
+    from symnum import explore, tob
 
     V = oarr(np.array([[(0, 0, 0), (2, 0, 0), (0, 3, 1)]], dtype=float))
     obs = symarr("observers", (1, 3))
     pol = oarr(np.array([[0.3, 0.2, 1.0]]))
     s = sym("s")
     CTX.pre = [s.z >= S_LO, s.z <= S_HI]
-    CTX.reset([])
     inputs = list(obs.ravel()) + [s]
     # expose the switch: np.where is lazy in the proxy, so the branch condition is recorded through a spy on np.where
     seen = []
@@ -231,42 +232,65 @@ def _trikernel(C):
             seen.append(c)
             return NPX.where(c, *ab)
 
-    T.np = Spy()
-    try:
-        seen.clear()
-        T.triangle_Bfield(observers=obs.copy(), vertices=V.copy(), polarizations=pol.copy())
-        conds1 = [c for c in seen if np.shape(c) == (3, 1)][:1]
-        seen.clear()
-        T.triangle_Bfield(observers=obs * s, vertices=V * s, polarizations=pol.copy())
-        conds2 = [c for c in seen if np.shape(c) == (3, 1)][:1]
-    finally:
-        T.np = NPX
-    C.paths += 1
-    if not conds1 or not conds2:
-        C.vacuous.append("triangle kernel: the ind > 1e-12 switch was not observed")
-        return
-    from symnum import tob
-
-    diff = z3.Or(*[tob(x) != tob(y) for x, y in zip(np.asarray(conds1[0], dtype=object).ravel(), np.asarray(conds2[0], dtype=object).ravel())])
+    def run():
+        T.np = Spy()
+        try:
+            seen.clear()
+            CTX.cache = {}
+            CTX.site_log = []
+            T.triangle_Bfield(observers=obs.copy(), vertices=V.copy(), polarizations=pol.copy())
+            conds1 = [c for c in seen if np.shape(c) == (3, 1)][:1]
+            log1 = CTX.site_log
+            seen.clear()
+            CTX.cache = {}
+            CTX.site_log = []
+            T.triangle_Bfield(observers=obs * s, vertices=V * s, polarizations=pol.copy())
+            conds2 = [c for c in seen if np.shape(c) == (3, 1)][:1]
+            log2 = CTX.site_log
+        finally:
+            T.np = NPX
+            CTX.site_log = None
+            CTX.cache = {}
+        sq = [(v, CTX.sqrt_arg[v.get_id()]) for v in CTX.sqrt_tab.values()]
+        return conds1, conds2, log1, log2, sq
 
     def on_model(env):
         return {"key": "C12|triangle_Bfield|branches", "replay": {"kind": "trikernel", "observers": [[env.get(f"observers_0_{k}", 0.0) or 0.0 for k in range(3)]], "s": env.get("s", 1.0)}}
 
-    # sqrt(s^2 t) = s sqrt(t) for s > 0: lemma instances for the square roots of the two runs
-    sq = [(z3.Real(name) if False else v, CTX.sqrt_arg[v.get_id()]) for v in [vv for vv in CTX.sqrt_tab.values()]]
-    lem = []
-    for (v1, a1), (v2, a2) in itertools.permutations(sq, 2):
-        lem.append(z3.Implies(a2 == s.z * s.z * a1, v2 == s.z * v1))
-    res = C.oblige("triangle_Bfield.edge-formula-switch-scale-free", CTX.pc, diff, lemmas=lem, on_model=on_model, inputs=inputs, key="C12|triangle_Bfield|branches",
-                   timeout=8000 if C.tier == "quick" else 120000,
-                   sample="triangle_Bfield: the switch between the general and the on-line edge formula is taken identically at X and s*X")
-    if res == "unknown":
-        # model search in a "nice" sub-domain (finding models with nested roots is much slower than refuting): observers close to the
-        # extension line of the edge (0,0,0)->(2,0,0), where r + b/l is small
-        o = [toz(x) for x in obs.ravel()]
-        sub = [o[0] >= 3, o[0] <= 4, o[1] > 0, o[1] <= z3.RealVal("1/100"), o[2] == 0]
-        C.oblige("triangle_Bfield.edge-formula-switch-scale-free[near edge extension]", CTX.pc + sub, diff, on_model=on_model, inputs=inputs,
-                 key="C12|triangle_Bfield|branches", timeout=30000 if C.tier == "quick" else 120000)
+    def on_path(p):
+        C.paths += 1
+        if p.status != "ok":
+            C.note_inconclusive(f"p{C.paths}", f"aborted: {p.out}")
+            return
+        conds1, conds2, log1, log2, sq = p.out
+        if log1 != log2:
+            # the two runs took different branches on this path: is the path feasible?
+            C.oblige(f"p{C.paths}.triangle_Bfield.same-decisions", p.pc, z3.BoolVal(True), on_model=on_model, inputs=inputs, key="C12|triangle_Bfield|branches",
+                     timeout=8000 if C.tier == "quick" else 120000)
+            return
+        if not conds1 or not conds2:
+            C.vacuous.append("triangle kernel: the ind > 1e-12 switch was not observed")
+            return
+        diff = z3.Or(*[tob(x) != tob(y) for x, y in zip(np.asarray(conds1[0], dtype=object).ravel(), np.asarray(conds2[0], dtype=object).ravel())])
+        # sqrt(s^2 t) = s sqrt(t) for s > 0: lemma instances for the square roots of the two runs
+        lem = []
+        for (v1, a1), (v2, a2) in itertools.permutations(sq, 2):
+            lem.append(z3.Implies(a2 == s.z * s.z * a1, v2 == s.z * v1))
+        res = C.oblige(f"p{C.paths}.triangle_Bfield.edge-formula-switch-scale-free", p.pc, diff, lemmas=lem, on_model=on_model, inputs=inputs, key="C12|triangle_Bfield|branches",
+                       timeout=8000 if C.tier == "quick" else 120000,
+                       sample="triangle_Bfield: every decision and the switch between the general and the on-line edge formula are taken identically at X and s*X")
+        if res == "unknown":
+            # model search in a "nice" sub-domain (finding models with nested roots is much slower than refuting): observers close to the
+            # extension line of the edge (0,0,0)->(2,0,0), where r + b/l is small
+            o = [toz(x) for x in obs.ravel()]
+            sub = [o[0] >= 3, o[0] <= 4, o[1] > 0, o[1] <= z3.RealVal("1/100"), o[2] == 0]
+            C.oblige(f"p{C.paths}.triangle_Bfield.edge-formula-switch-scale-free[near edge extension]", p.pc + sub, diff, on_model=on_model, inputs=inputs,
+                     key="C12|triangle_Bfield|branches", timeout=30000 if C.tier == "quick" else 120000)
+
+    paths = explore(run, max_paths=20, on_path=on_path)
+    C.decisions += sum(len(p.decisions) for p in paths)
+    if explore.truncated:
+        C.note_inconclusive("path-budget", "path budget hit")
 
 
 # ----------------------------------------------------------------------------- replay
@@ -281,13 +305,16 @@ def replay(spec):
         o = np.array(spec["observers"], dtype=float)
         best = (False, "")
         # the candidate names the region; scan a few scales around the model's s for a visible value difference
-        for sc in (s, 1e-9, 1e-6, 1e-3, 1e3):
-            a = BHJM_triangle("B", o, V, pol)
-            b = BHJM_triangle("B", o * sc, V * sc, pol)
-            if np.all(np.isfinite(a)) and np.all(np.isfinite(b)):
-                d = np.abs(a - b).max() / max(np.abs(a).max(), 1e-300)
-                if d > 1e-7:
-                    return True, f"triangle_Bfield at observer {o.tolist()}: B(X)={a.tolist()} but B(s*X)={b.tolist()} for s={sc} (relative difference {d:.2e})"
+        # (a decision that does not depend on the observer leaves it unconstrained in the model - often a vertex, where the field is NaN:
+        #  generic observers are tried as well; any reproduced difference is a real violation of the property)
+        for o in (o, np.array([[0.3, 0.4, 0.5]]), np.array([[-1.0, 2.0, 0.25]])):
+            for sc in (s, 1e-9, 1e-6, 1e-3, 1e3):
+                a = BHJM_triangle("B", o, V, pol)
+                b = BHJM_triangle("B", o * sc, V * sc, pol)
+                if np.all(np.isfinite(a)) and np.all(np.isfinite(b)):
+                    d = np.abs(a - b).max() / max(np.abs(a).max(), 1e-300)
+                    if d > 1e-7:
+                        return True, f"triangle_Bfield at observer {o.tolist()}: B(X)={a.tolist()} but B(s*X)={b.tolist()} for s={sc} (relative difference {d:.2e})"
         return best
     w = WRAPPERS[spec["wrapper"]]
     f = spec["field"]
